@@ -176,3 +176,36 @@ for sid,(prop,what,needs,ran,checks) in M5.items():
           "result":ran,"caught_by":checks}
     json.dump(meta, open(d+'/meta.json','w'), indent=1)
 print(len(M5))
+
+M6 = {
+ "C02e": ("C02", "CSE key of a count-copying decider no longer says WHICH value is copied: two `cond : value` gates with the same condition and output type (every gated bundle is `signal-everything`) are merged", "optimiser on; two bundles gated by one and the same condition (written twice or named once): `r1 = (s > 2) : b; r2 = (s > 2) : c`", "C02 and C10 quick missed at first (every gate had its own condition); after adding gating_shared_condition (also drawn by C10) -> C02 exit 1 (18)", ["C02", "C10"]),
+ "C03e": ("C03", "_determine_locked_wire_colors stops after the first signal-W producer: every other write-enable falls back to red and joins the cell's data input with its feedback network", "two or more conditionally written cells with different when= expressions (or one next to an unconditional plain write); which cell survives depends on the string order of the IR node ids", "C03 quick exit 1 on first run (25)", ["C03"]),
+ "C05e": ("C05", "_try_extract_inline_conditions looks the compared name up in the caller's names before the inlined function's parameters", "a latch written inside a function whose set/reset compare a Signal parameter with integers, and a different caller Signal of the same name declared before the call", "C05 and C15 quick missed at first (no latch inside a function); after adding latch_in_function_param_named_like_caller_signal to C15 -> C15 exit 1 (6); C05's own generator still builds top-level latches only", ["C15"]),
+ "C06e": ("C06", "_find_or_create_relay_near reuses any relay pole near the ideal position without asking whether it already carries another network on that colour", "two long (> 9 tiles) same-colour connections from different sources whose relay chains run 1-2 tiles apart", "C06 quick exit 1 on first run (36); C12 exit 1 (75)", ["C06", "C12"]),
+ "C07e": ("C07", "the emitter de-duplicates planned wires by (source, sink, colour) without the connector side: `A.output -> B.input` and `A.input -> B.input` collide and the second is dropped", "y = f(x); z = g(x, y) with different signal names and a layout whose spanning tree reaches B through A's input", "C07 quick exit 1 on first run (2: decoded CLI output is not the planned circuit)", ["C07"]),
+ "C10e": ("C10", "CSE orders the operand keys of commutative operators and counts `^` (the IR's power operator) among them (independently the same idea as C01a)", "optimiser on; x ** y and y ** x on one output type", "C10 quick exit 1 on first run (1, the commuted-operands enumeration)", ["C10", "C01"]),
+ "C11e": ("C11", "_resolve_constant_symbol asks the analyzer's (global-scope) symbol table before the lowering-time name table: a body-local int or iterator named like a top-level int literal folds with the global's value", "a top-level `int N = <literal>` and a loop iterator / body-local int / function-local int of the same name used in a folded sub-expression", "C11 and C16 quick missed at first; after adding a body-local int named like a top-level int to loop_iterator_arithmetic -> C11 exit 1 (8)", ["C11", "C16"]),
+ "C12e": ("C12", "route_signal looks an existing relay up in a dict keyed by tile with an entity id: the relay never records the network that now uses it, so a second network of the same colour is routed through it", "long wires, an already existing free relay path (relays of the other colour, or a --power-poles grid) and a second same-colour network along the same corridor", "C12 quick exit 1 on first run (22 cross-talk); C08 exit 1 (24)", ["C12", "C08"]),
+ "C16e": ("C16", "the same lookup-order change as C11e, found independently", "`int x = 6;` anywhere at top level and `for x in ...` whose body folds `x * 10`", "C16 quick missed at first; after adding a top-level int with the iterator's name (before or after the loop) -> C16 exit 1 (43)", ["C16", "C11"]),
+ "C19e": ("C19", "_apply_mst_to_source_fanout assigns the forward key of a spanning-tree segment outright: it overwrites the colour recorded for a real logical edge of the other colour group", "p = a + k; b = p * k2; c = p * b (one name from two producers, the first with fan-out) and a layout whose tree is P-B, B-C", "C19 quick exit 1 on first run (1 of 40 programs differs between schedules); C01 exit 1 (1)", ["C19", "C01"]),
+}
+for sid,(prop,what,needs,ran,checks) in M6.items():
+    d='/verif/seeded/%s'%sid
+    os.makedirs(d, exist_ok=True)
+    conf={}
+    try: conf=json.load(open(d+'/confirm.json'))
+    except Exception: pass
+    base=None
+    try: base=subprocess.check_output(["git","-C","/tmp/wt_%s"%sid,"rev-parse","--short","HEAD"],text=True,stderr=subprocess.DEVNULL).strip()
+    except Exception: pass
+    old={}
+    try: old=json.load(open(d+'/meta.json'))
+    except Exception: pass
+    meta={"id":sid,"property":prop,"change":what,"needs_to_manifest":needs,"base_commit":base or old.get("base_commit"),
+          "produced_by":"fresh sub-agent given only the property text (asked for a dependence on something incidental: program size, statement order, names, rarely used constructs) and a scratch git worktree under /tmp",
+          "confirmed_by_me":{"demo_exit_with_change":conf.get("demo_with_change",{}).get("exit"),"demo_exit_without_change":conf.get("demo_without_change",{}).get("exit"),
+                             "repository_suite_with_change":(conf.get("suite_xdist",{}).get("last_line") or [None])[0], "suite_failures_confirmed_serially":conf.get("suite_failures_confirmed_serially")},
+          "checks_run":"FVERIF_REPO=<worktree with the change> ./check <id> --tier quick --no-evidence (same as applying the patch to /repo; /repo was busy with the thorough sweep)",
+          "result":ran,"caught_by":checks}
+    json.dump(meta, open(d+'/meta.json','w'), indent=1)
+print(len(M6))
